@@ -178,12 +178,18 @@ func (gz *GzipDecompressor) ParseFooter(p []byte) (blobPayloadSize, tocOffset, t
 	if slen := binary.LittleEndian.Uint16(subfieldlen); slen != uint16(16+len("STARGZ")) {
 		return 0, 0, 0, fmt.Errorf("invalid length of subfield %d; want %d", slen, 16+len("STARGZ"))
 	}
+	if len(subfield) != 16+len("STARGZ") {
+		return 0, 0, 0, fmt.Errorf("invalid subfield size %d; want %d", len(subfield), 16+len("STARGZ"))
+	}
 	if string(subfield[16:]) != "STARGZ" {
 		return 0, 0, 0, fmt.Errorf("STARGZ magic string must be included in the footer subfield")
 	}
 	tocOffset, err = strconv.ParseInt(string(subfield[:16]), 16, 64)
 	if err != nil {
 		return 0, 0, 0, fmt.Errorf("legacy: failed to parse toc offset: %w", err)
+	}
+	if tocOffset < 0 {
+		return 0, 0, 0, fmt.Errorf("invalid toc offset %d", tocOffset)
 	}
 	return tocOffset, tocOffset, 0, nil
 }
@@ -225,6 +231,9 @@ func (gz *LegacyGzipDecompressor) ParseFooter(p []byte) (blobPayloadSize, tocOff
 	tocOffset, err = strconv.ParseInt(string(extra[:16]), 16, 64)
 	if err != nil {
 		return 0, 0, 0, fmt.Errorf("legacy: failed to parse toc offset: %w", err)
+	}
+	if tocOffset < 0 {
+		return 0, 0, 0, fmt.Errorf("legacy: invalid toc offset %d", tocOffset)
 	}
 	return tocOffset, tocOffset, 0, nil
 }
